@@ -20,8 +20,12 @@ DIRS = ["asm", "core", "disasm", "fileio", "simulate", "table", "common", "main"
 T9 = {
     "core/directives_data.cpp": ["parse_db", "parse_resb", "parse_align"],
     "core/directives_data.h": ["parse_db", "parse_resb"],
-    "fileio/write_hex.cpp": ["write_hex_line"],
-    "fileio/write_srec.cpp": ["write_srec_line"],
+    "fileio/write_hex.cpp": ["write_hex_line", "write_hex"],
+    "fileio/write_hex.h": ["write_hex"],
+    "fileio/write_srec.cpp": ["write_srec_line", "write_srec"],
+    "fileio/write_srec.h": ["write_srec"],
+    "fileio/write_bin.cpp": ["write_bin"],
+    "fileio/write_bin.h": ["write_bin"],
     "fileio/write_wdc.cpp": [],
 }
 
